@@ -18,6 +18,23 @@ CLAIMED = {
             'floats read as reals with constant de-rounding; interpreter validated against real JAX per run; batch '
             'composition taken from the real ShuffleRepeatBatchView; pmap backend covered by C02 model only',
             'DESIGN.md C01'),
+    'C07': ('J', 'symbolic execution of tree_sum/tree_mean/mean_aggregator/clip (jaxpr -> z3 extended reals, Python-level '
+                 'forks on traced weights), per-coordinate queries; donation dataflow on the traced IR confirmed by a concrete run',
+            'Bounded symbolic check: for 1..3 trees (2 leaves, sizes <=2), symbolic non-negative weights (all fork paths) and '
+            'concrete weight vectors, list/generator/iterator feeds, z3 shows every output coordinate equals sum(w p)/sum(w) '
+            '(zeros and not NaN when the total is 0), lies in the hull, and that clipping yields norm <= c, parallel, '
+            'same orientation, identity below the bound, for ALL leaf values and c > 0.',
+            'floats read as reals with NaN/Inf flags; "never invalidates inputs" is decided by dataflow over donated_invars '
+            'of the traced IR plus a concrete is_deleted() confirmation (auxiliary, not a solver query)',
+            'DESIGN.md C07'),
+    'C18': ('J', 'symbolic execution of the transform/rotation (jaxpr -> z3 reals, Rademacher signs from symbolic uniform '
+                 'draws named by key term), coordinate-wise equality with the Sylvester matrix product, norm and inverse queries',
+            'Bounded symbolic check: for every enumerated (length 2^a, block 2^b) z3 shows walsh_hadamard_transform(x) = H x '
+            'for ALL real x; for every enumerated shape, for ALL x and ALL sign patterns, the rotation preserves the norm and '
+            'the inverse with the same key restores x in its original shape; different key terms give independent signs.',
+            'floats read as reals; 1/sqrt(d) de-rounded to the algebraic constant; lengths 2^9..2^14 not claimed; real jitted '
+            'entry point additionally called concretely per configuration',
+            'DESIGN.md C18'),
 }
 
 NOT_APPLICABLE = {
